@@ -192,6 +192,11 @@ class _GenerateRenderMethod:
 
             def visitPageTag(s, node):
                 self.compiler.pagetag = node
+                # counts for all that is written from here on: the module
+                # attributes and the defs of inline namespaces as well
+                self.compiler.enable_loop = self.compiler.enable_loop or eval(
+                    node.attributes.get("enable_loop", "False")
+                )
 
             def visitCode(s, node):
                 if node.ismodule:
